@@ -11,7 +11,7 @@ if os.path.exists('seeded/RESULTS.md'):
         m = re.match(r'\| *(\S+) *\| *(C\d\d) *\| *exit=(\d) *\| *violations=(\d+) *\| *(.*)\|?$', l.strip())
         if m:
             results.setdefault(m.group(1), []).append({"check": m.group(2), "exit": int(m.group(3)), "violations": int(m.group(4)), "classes": m.group(5).strip(' |')})
-also = {"C01-m7": ["C13"], "C03-m7": ["C07"], "C05-m7": ["C15"], "C17-m7": ["C16"], "C20-m7": ["C06"], "C20-m6": ["C10"], "C11-m6": ["C05"], "C12-m5": ["C10"], "C01-m6": ["C04"], "C01-m3": ["C10", "C13"], "C04-m4": ["C13"], "C18-m4": ["C15"], "C04-m5": ["C09"], "C01-m5": ["C13"], "C17-m2": ["C16"]}
+also = {"C03-m8": ["C10"], "C12-m8": ["C10"], "C14-m8": ["C08"], "C17-m8": ["C16"], "C20-m8": ["C15"], "C01-m7": ["C13"], "C03-m7": ["C07"], "C05-m7": ["C15"], "C17-m7": ["C16"], "C20-m7": ["C06"], "C20-m6": ["C10"], "C11-m6": ["C05"], "C12-m5": ["C10"], "C01-m6": ["C04"], "C01-m3": ["C10", "C13"], "C04-m4": ["C13"], "C18-m4": ["C15"], "C04-m5": ["C09"], "C01-m5": ["C13"], "C17-m2": ["C16"]}
 for d in sorted(glob.glob('seeded/C*-m*')):
     sid = os.path.basename(d); prop, mut = sid.split('-')
     notes = os.path.join(d, 'NOTES.md')
